@@ -112,11 +112,18 @@ def _check_carriers(site, pipe, doc, carriers, data_fn, seed, viol, case):
                          'observed': normal(doc2), 'expected': normal(doc)})
             return
         try:
-            d1, d2 = data_fn(), data_fn()
-            random.seed(seed); np.random.seed(seed)
-            r1 = pipe(**d1)
-            random.seed(seed); np.random.seed(seed)
-            r2 = pipe2(**d2)
+            # several seeds: one draw of a small discrete value can coincide by chance in the two pipelines
+            same = True
+            for sd in (seed, seed + 1, seed + 2, seed + 3):
+                d1, d2 = data_fn(), data_fn()
+                random.seed(sd); np.random.seed(sd)
+                r1 = pipe(**d1)
+                random.seed(sd); np.random.seed(sd)
+                r2 = pipe2(**d2)
+                if not outputs_equal(r1, r2):
+                    same = False
+                    seed = sd
+                    break
         except Exception as e:  # noqa
             # configurations that cannot run at all are C08's business; both pipelines must agree on raising
             try:
@@ -127,7 +134,7 @@ def _check_carriers(site, pipe, doc, carriers, data_fn, seed, viol, case):
             except Exception:  # noqa
                 pass
             return
-        if not outputs_equal(r1, r2):
+        if not same:
             viol.append({'site': site + ':behaviour', 'case': case, 'carrier': carrier,
                          'observed': 'outputs differ under seed %d' % seed, 'expected': 'bit-identical outputs'})
             return
